@@ -54,6 +54,7 @@ func (c *Controller) runLoop() {
 
 		waiting := false
 		running := false
+		var skipped *Task
 
 		// Mark tasks as Ready.
 		for _, t := range c.tasks {
@@ -75,6 +76,7 @@ func (c *Controller) runLoop() {
 				// config became more concrete), skip this task.
 				if !t.v.Exists() {
 					t.state = Terminated
+					skipped = t
 					continue
 				}
 
@@ -94,6 +96,14 @@ func (c *Controller) runLoop() {
 
 			case Terminated:
 			}
+		}
+
+		if skipped != nil {
+			// A skipped task counts as completed: give its dependants a
+			// chance to become Ready before deciding that nothing is left
+			// to run.
+			c.markReady(skipped)
+			continue
 		}
 
 		if !running {
